@@ -1,6 +1,210 @@
 package main
 
-import "go/ast"
+import (
+	"fmt"
+	"go/ast"
+	"go/token"
+	"go/types"
+	"path/filepath"
+	"strconv"
+)
 
-// raceFile is filled in by race instrumentation (see race hooks in stmt()).
-func (in *inst) raceFile(f *ast.File) {}
+// Race instrumentation: before each simple statement (and before the header of
+// if/switch/range), emit vrt.Rd / vrt.Wr calls for the struct fields,
+// package-level variables, slice elements and pointer targets the statement
+// reads or writes.  These are not scheduling points; they feed the
+// vector-clock race oracle of the runtime.
+
+type acc struct {
+	e     ast.Expr
+	write bool
+}
+
+func (in *inst) syncType(t types.Type) bool {
+	for {
+		switch u := t.(type) {
+		case *types.Pointer:
+			t = u.Elem()
+			continue
+		case *types.Named:
+			if p := u.Obj().Pkg(); p != nil && (p.Path() == "sync" || p.Path() == "sync/atomic") {
+				return true
+			}
+		}
+		return false
+	}
+}
+
+func (in *inst) record(e ast.Expr, write bool, out *[]acc) {
+	tv, ok := in.info.Types[e]
+	if !ok || !tv.Addressable() || !pure(e) {
+		return
+	}
+	if in.syncType(tv.Type) {
+		return
+	}
+	*out = append(*out, acc{e, write})
+}
+
+func (in *inst) walk(e ast.Expr, write bool, out *[]acc) {
+	switch e := e.(type) {
+	case nil:
+	case *ast.ParenExpr:
+		in.walk(e.X, write, out)
+	case *ast.FuncLit:
+	case *ast.Ident:
+		if e.Name == "_" {
+			return
+		}
+		if v, ok := in.info.Uses[e].(*types.Var); ok && !v.IsField() && in.pkg != nil && v.Parent() == in.pkg.Scope() {
+			in.record(e, write, out)
+		}
+	case *ast.SelectorExpr:
+		if sel := in.info.Selections[e]; sel != nil {
+			if sel.Kind() == types.FieldVal {
+				in.record(e, write, out)
+			}
+			in.walk(e.X, false, out)
+		}
+	case *ast.IndexExpr:
+		t := in.info.TypeOf(e.X)
+		if t == nil {
+			return
+		}
+		switch u := t.Underlying().(type) {
+		case *types.Slice, *types.Array:
+			in.record(e, write, out)
+			in.walk(e.X, false, out)
+		case *types.Pointer:
+			if _, ok := u.Elem().Underlying().(*types.Array); ok {
+				in.record(e, write, out)
+			}
+			in.walk(e.X, false, out)
+		case *types.Map:
+			in.walk(e.X, write, out) // a map update is a write of the map
+		default:
+			in.walk(e.X, false, out)
+		}
+		in.walk(e.Index, false, out)
+	case *ast.StarExpr:
+		in.record(e, write, out)
+		in.walk(e.X, false, out)
+	case *ast.UnaryExpr:
+		if e.Op == token.AND {
+			if _, isLit := e.X.(*ast.CompositeLit); isLit {
+				in.walk(e.X, false, out)
+			} else {
+				in.walk(e.X, true, out) // address taken: assume written through
+			}
+			return
+		}
+		in.walk(e.X, false, out)
+	case *ast.BinaryExpr:
+		in.walk(e.X, false, out)
+		if e.Op != token.LAND && e.Op != token.LOR { // right operands are evaluated conditionally
+			in.walk(e.Y, false, out)
+		}
+	case *ast.CallExpr:
+		in.walk(e.Fun, false, out)
+		for i, a := range e.Args {
+			if i == 0 && in.isAtomicCall(e) {
+				continue // the operand of an atomic operation is not a plain access
+			}
+			in.walk(a, false, out)
+		}
+	case *ast.SliceExpr:
+		in.walk(e.X, false, out)
+		in.walk(e.Low, false, out)
+		in.walk(e.High, false, out)
+		in.walk(e.Max, false, out)
+	case *ast.TypeAssertExpr:
+		in.walk(e.X, false, out)
+	case *ast.CompositeLit:
+		for _, el := range e.Elts {
+			in.walk(el, false, out)
+		}
+	case *ast.KeyValueExpr:
+		in.walk(e.Value, false, out)
+	}
+}
+
+func (in *inst) stmtAccesses(s ast.Stmt, out *[]acc) {
+	switch s := s.(type) {
+	case nil:
+	case *ast.AssignStmt:
+		for _, r := range s.Rhs {
+			in.walk(r, false, out)
+		}
+		for _, l := range s.Lhs {
+			in.walk(l, true, out)
+		}
+	case *ast.IncDecStmt:
+		in.walk(s.X, true, out)
+	case *ast.ExprStmt:
+		in.walk(s.X, false, out)
+	case *ast.ReturnStmt:
+		for _, r := range s.Results {
+			in.walk(r, false, out)
+		}
+	case *ast.SendStmt:
+		in.walk(s.Chan, false, out)
+		in.walk(s.Value, false, out)
+	case *ast.DeclStmt:
+		if gd, ok := s.Decl.(*ast.GenDecl); ok {
+			for _, sp := range gd.Specs {
+				if vs, ok := sp.(*ast.ValueSpec); ok {
+					for _, v := range vs.Values {
+						in.walk(v, false, out)
+					}
+				}
+			}
+		}
+	case *ast.GoStmt:
+		in.walk(s.Call, false, out)
+	case *ast.DeferStmt:
+		in.walk(s.Call, false, out)
+	}
+}
+
+// raceHooks returns the Rd/Wr statements for the accesses of the given parts.
+func (in *inst) raceHooks(pos token.Pos, stmts []ast.Stmt, exprs []ast.Expr) []ast.Stmt {
+	if !in.race {
+		return nil
+	}
+	var as []acc
+	for _, s := range stmts {
+		in.stmtAccesses(s, &as)
+	}
+	for _, e := range exprs {
+		in.walk(e, false, &as)
+	}
+	if len(as) == 0 {
+		return nil
+	}
+	p := in.fset.Position(pos)
+	where := strconv.Quote(fmt.Sprintf("%s:%d", filepath.Base(p.Filename), p.Line))
+	seen := map[string]int{}
+	var uniq []acc
+	for _, a := range as {
+		k := types.ExprString(a.e)
+		if i, ok := seen[k]; ok {
+			if a.write {
+				uniq[i].write = true
+			}
+			continue
+		}
+		seen[k] = len(uniq)
+		uniq = append(uniq, a)
+	}
+	var out []ast.Stmt
+	for _, a := range uniq {
+		fn := "Rd"
+		if a.write {
+			fn = "Wr"
+		}
+		ptr := &ast.CallExpr{Fun: &ast.SelectorExpr{X: ast.NewIdent("unsafe"), Sel: ast.NewIdent("Pointer")}, Args: []ast.Expr{&ast.UnaryExpr{Op: token.AND, X: a.e}}}
+		out = append(out, &ast.ExprStmt{X: call(fn, ptr, &ast.BasicLit{Kind: token.STRING, Value: where})})
+		in.counts["race:"+fn]++
+	}
+	return out
+}
